@@ -1,10 +1,13 @@
 import GrcovModel.Drv.Merge
+import GrcovModel.Drv.Lcov
 open Grcov.Drv
 
 def step (line : String) : String :=
   match line.trimAscii.toString.splitOn " " with
   | "merge" :: args => handleMerge args
   | "addresults" :: args => handleAddResults args
+  | "lcov.parse" :: args => handleLcovParse args
+  | "utf8lossy" :: args => handleUtf8Lossy args
   | _ => "bad-op"
 
 partial def loop (h : IO.FS.Stream) (out : IO.FS.Stream) : IO Unit := do
